@@ -69,6 +69,9 @@ def bodies(rng, tier):
     out.append(("(n &rest r)", "(if (<= n 0) r (f (- n 1) n (car r)))", "(f %d)"))
     out.append(("(n &rest r)", "(if (<= n 0) (length r) (f (- n 1) 1 2 3))", "(f %d 9)"))
     out.append(("(n &rest acc)", "(if (<= n 0) acc (f (- n 1) (list n) (car acc)))", "(f %d)"))
+    out.append(("(n acc)", "(if (<= n 0) (car 'boom) (f (- n 1) (cons n acc)))", "(f %d nil)"))
+    out.append(("(n acc)", "(cond ((<= n 0) (nosuchfn acc)) (t (setq g (+ g 1)) (f (- n 1) (+ acc 1))))", "(f %d 0)"))
+    out.append(("(n acc)", "(if (<= n 0) (f 1) (f (- n 1) (+ acc 1)))", "(f %d 0)"))
     out.append(("(n &rest acc)", "(if (<= n 0) acc (f (- n 1) 'tag (car acc) ''q))", "(f %d 'first)"))
     out.append(("(n tag &rest more)", "(cond ((<= n 0) (list tag more)) (t (f (- n 1) tag tag (list tag))))", "(f %d 'sym)"))
     out.append(("(n &optional o &rest r)", "(if (<= n 0) (list o r) (f (- n 1) (list 'o n) 'r1 (cons 1 2)))", "(f %d)"))
@@ -126,7 +129,7 @@ def oracle(lines, impl, model, meta):
     req = []
     for params, body, call in meta.get("bodies", []):
         if "(+ 1 (f" in body or "(and t (f" in body or "(if (f " in body or "((lambda (x) x) (f" in body or "cons n" in body or "(car r)" in body or "(f 0 0)" in body \
-           or "((f (- n 1)" in body or "(or (f" in body or "(let ((r (f" in body or "(progn (tick n) (f (- n 1) acc)))" in body:
+           or "(car 'boom)" in body or "(nosuchfn" in body or "(f 1)" in body or "((f (- n 1)" in body or "(or (f" in body or "(let ((r (f" in body or "(progn (tick n) (f (- n 1) acc)))" in body:
             continue
         pb = body.replace("(if (<= n 0)", "(progn (probe) (if (<= n 0)", 1) + ")" if body.startswith("(if (<= n 0)") else None
         if pb is None: continue
